@@ -17,6 +17,8 @@ func init() {
 		checkC03(p, r)
 		r.Explain("R5 writer/reader agreement on number literals: a marker character the scanner copies from the input into the literal's text (under a test that admits it) is one the literal conversion looks for; otherwise the scanner must normalise it.")
 		c03NumberText(p, r)
+		r.Explain("R6 each escape letter the string scanner singles out contributes exactly the control character Go assigns to it.")
+		c03Escapes(p, r)
 	})
 }
 
@@ -976,4 +978,79 @@ func keysOfRunes(m map[rune]bool) string {
 	}
 	sort.Slice(rs, func(i, j int) bool { return rs[i] < rs[j] })
 	return string(rs)
+}
+
+// c03Escapes (R6): escape sequences in quoted strings denote their Go meaning: after a backslash, each letter the scanner
+// singles out (b f n r t ...) contributes exactly the one control character Go assigns to it, and nothing else.
+func c03Escapes(p *Program, r *Report) {
+	sm, err := buildScanModel(p)
+	if err != nil {
+		return
+	}
+	goEscape := map[rune]rune{'a': '\a', 'b': '\b', 'f': '\f', 'n': '\n', 'r': '\r', 't': '\t', 'v': '\v', '0': 0}
+	sp := p.SSAPkg("parser")
+	n := 0
+	for _, fn := range SrcFuncs(sp) {
+		// the quoted-string scanner: tests the cursor against a backslash
+		var bs []*ssa.BasicBlock
+		for _, b := range fn.Blocks {
+			if iff, ok := b.Instrs[len(b.Instrs)-1].(*ssa.If); ok {
+				if bo, ok := iff.Cond.(*ssa.BinOp); ok && bo.Op == token.EQL {
+					if c, ok := bo.Y.(*ssa.Const); ok && c.Value != nil && c.Value.Kind() == constant.Int && c.Int64() == '\\' {
+						if pc, ok := bo.X.(*ssa.Call); ok && sm.peekLike[staticCallee(pc)] {
+							bs = append(bs, b.Succs[0])
+						}
+					}
+				}
+			}
+		}
+		for _, start := range bs {
+			// the chain of tests on the character after the backslash
+			for b := range reachable(start, func(x *ssa.BasicBlock) bool { return !start.Dominates(x) }) {
+				iff, ok := b.Instrs[len(b.Instrs)-1].(*ssa.If)
+				if !ok {
+					continue
+				}
+				bo, ok := iff.Cond.(*ssa.BinOp)
+				if !ok || bo.Op != token.EQL {
+					continue
+				}
+				c, ok := bo.Y.(*ssa.Const)
+				if !ok || c.Value == nil || c.Value.Kind() != constant.Int {
+					continue
+				}
+				pc, ok := bo.X.(*ssa.Call)
+				if !ok || !sm.peekLike[staticCallee(pc)] {
+					continue
+				}
+				letter := rune(c.Int64())
+				want, known := goEscape[letter]
+				if !known {
+					continue
+				}
+				// what is appended from the true edge until control leaves the escape handling (a back edge or a merge)
+				var got []string
+				for x := b.Succs[0]; x != nil; {
+					for _, in := range x.Instrs {
+						if ac, _, els := builtinAppend(in); ac != nil && len(els) == 1 {
+							if k, ok := els[0].(*ssa.Const); ok && k.Value != nil {
+								got = append(got, fmt.Sprintf("%q", rune(k.Int64())))
+							} else {
+								got = append(got, "the letter itself")
+							}
+						}
+					}
+					if len(x.Succs) != 1 || x.Succs[0].Dominates(x) {
+						break
+					}
+					x = x.Succs[0]
+				}
+				n++
+				wantS := fmt.Sprintf("%q", want)
+				r.Check(len(got) == 1 && got[0] == wantS, "C03.R6", fmt.Sprintf("%s|escape \\%c", funcName(fn), letter), p.Pos(instrPos(iff)), "contributes "+wantS,
+					fmt.Sprintf("the escape \\%c contributes %v to the string, Go's meaning is %s alone", letter, got, wantS))
+			}
+		}
+	}
+	r.Floor("C03.R6", n, 5)
 }
